@@ -243,6 +243,17 @@ fault("DataFrame.write_column", "unknown-column", "df")(lambda c: c.df.write_col
 fault("DataFrame.write_column", "wrong-length", "df")(lambda c: c.df.write_column([1] * (len(c.df) + 1), name=c.df.column_names[0]))
 fault("DataFrame.write_cell", "row-out-of-range", "df")(lambda c: c.df.write_cell(1, position=(99, 0)))
 fault("DataFrame.write_cell", "unknown-column", "df")(lambda c: c.df.write_cell(1, col_name="nope", row_idx=0))
+# calls that the library accepts today (so they are outside the property) but that a stricter version might refuse:
+# kept in the catalogue so that such a refusal is checked for leftovers as well
+fault("Block.create_multi_tag", "positions-array-of-another-block", "b", "foreign", retry=lambda c: c.b.create_multi_tag("newmt", "t", [1.0]))(
+    lambda c: c.b.create_multi_tag("newmt", "t", c.foreign))
+fault("Block.create_multi_tag", "extents-array-of-another-block", "b", "foreign", retry=lambda c: c.b.create_multi_tag("newmt", "t", [1.0]))(
+    lambda c: c.b.create_multi_tag("newmt", "t", [1.0], extents=c.foreign))
+fault("MultiTag.positions", "array-of-another-block", "mtag", "foreign")(lambda c: setattr(c.mtag, "positions", c.foreign))
+fault("MultiTag.extents", "array-of-another-block", "mtag", "foreign")(lambda c: setattr(c.mtag, "extents", c.foreign))
+fault("Tag.create_feature", "array-of-another-block", "tag", "foreign")(lambda c: c.tag.create_feature(c.foreign, nix.LinkType.Untagged))
+fault("Block.create_tag", "position-as-numpy-int-array", "b", retry=lambda c: c.b.create_tag("newtag", "t", [0.0]))(
+    lambda c: c.b.create_tag("newtag", "t", np.array([1, 2], dtype=np.int8)))
 # multi-row / multi-part calls whose LATER part is invalid: nothing of the earlier part may stay behind
 GOODROW = (7, "g", 7.5)
 fault("DataFrame.write_rows", "valid-row-then-row-out-of-range", "df")(lambda c: c.df.write_rows([GOODROW, GOODROW], [0, 99]))
@@ -251,6 +262,15 @@ fault("DataFrame.write_rows", "valid-row-then-ill-typed-row", "df")(lambda c: c.
 fault("DataFrame.write_rows", "more-rows-than-indices", "df")(lambda c: c.df.write_rows([GOODROW, GOODROW], [0]))
 fault("DataFrame.append_rows", "valid-row-then-short-row", "df")(lambda c: c.df.append_rows([GOODROW, (1,)]))
 fault("DataFrame.append_rows", "valid-row-then-ill-typed-row", "df")(lambda c: c.df.append_rows([GOODROW, ("x", "y", "z")]))
+# index lists that are not increasing (written row by row by some implementations) with a later invalid part
+fault("DataFrame.write_rows", "descending-indices-then-short-row", "df")(lambda c: c.df.write_rows([GOODROW, (1,)], [1, 0]))
+fault("DataFrame.write_rows", "descending-indices-then-ill-typed-row", "df")(lambda c: c.df.write_rows([GOODROW, ("x", "y", "z")], [1, 0]))
+fault("DataFrame.write_rows", "repeated-index-then-ill-typed-row", "df")(lambda c: c.df.write_rows([GOODROW, ("x", "y", "z")], [0, 0]))
+fault("DataFrame.write_rows", "valid-row-then-negative-index-out-of-range", "df")(lambda c: c.df.write_rows([GOODROW, GOODROW], [0, -9]))
+fault("DataFrame.write_rows", "negative-index-below-first-row", "df")(lambda c: c.df.write_rows([GOODROW], [-len(c.df) - 1]))
+fault("DataFrame.write_rows", "negative-index-twice-below", "df")(lambda c: c.df.write_rows([GOODROW], [-2 * len(c.df)]))
+fault("DataFrame.write_rows", "indices-as-tuple-then-bad-row", "df")(lambda c: c.df.write_rows([GOODROW, (1,)], (0, 1)))
+fault("DataFrame.write_cell", "negative-row-below-first", "df")(lambda c: c.df.write_cell(1, position=(-len(c.df) - 1, 0)))
 fault("DataFrame.write_column", "single-entry-column", "df")(lambda c: c.df.write_column([9], name=c.df.column_names[0]))
 fault("DataFrame.write_column", "single-entry-column-by-index", "df")(lambda c: c.df.write_column([9], index=0))
 fault("DataFrame.write_column", "empty-column", "df")(lambda c: c.df.write_column([], name=c.df.column_names[0]))
